@@ -38,6 +38,8 @@ CATALOGUE = [
     [('f', 'o/d/x/f'), ('f', 'p/d/x/f'), ('f', 'q/d/x/f'), ('l', 'p/lnk', '../o'), ('l', 'q/lnk', '../o'), ('f', 'o/d/f'), ('f', 'p/f')],
     # 14: names containing a newline (directories and files): `.` and `$` in a regex do not mean "any character" / "end of string"
     [('d', 'a\nb'), ('f', 'a\nb/x'), ('f', 'n\n'), ('d', 'd'), ('f', 'd/\n'), ('f', '\nlead'), ('d', 't\n'), ('f', 't\n/y'), ('f', 'plain')],
+    # 15: names that end in a backslash (an ordinary character on POSIX, never a separator) or in `\.`
+    [('f', 'tail\\'), ('f', 'plain'), ('d', 'd'), ('f', 'd/x\\'), ('d', 'q\\'), ('f', 'q\\/z'), ('d', 'd\\.'), ('f', 'd\\./y'), ('f', 'a\\b')],
 ]
 
 NAME_POOL = ['a', 'b', 'A', 'ab', 'a.b', '.h', '.hd', 'x1', 'd', 'e', '[a]', 'a*']
